@@ -160,6 +160,14 @@ def _counting_loop(ck, prog, name):
             init[s.targets[0].id] = s.value
     rets = [s for s in body if isinstance(s, ast.Return)]
     out = unparse(rets[0].value) if len(rets) == 1 else None
+    # other locals fixed before the loop (a hoisted bound, say) are evaluated once; the ones the loop rebinds are not taken over
+    rebound = {x.id for s in loop.body for x in ast.walk(s) if isinstance(x, ast.Name) and isinstance(x.ctx, ast.Store)}
+    for nm, val in init.items():
+        if nm not in rebound and nm != out and nm not in env:
+            try:
+                env[nm] = ev.eval(val, env, fr)
+            except Undecided:
+                pass
     # counter: the name compared in the loop test
     t = loop.test
     okt = False
